@@ -131,25 +131,38 @@ Print Assumptions C02_full_build_refines_new_table.
    known_findings/C02.json - crashes while the table is built (Inf, 5e-324), or builds a table
    on which every lookup of the route crashes (1e308 twice), or every glob-enabled lookup
    crashes (host pattern '['); and the update loop dies with it. *)
-Theorem C02_new_table_total_refuted :
-  fb_wit (bs "route add s h.com/ http://h/ weight Inf") = Panic
-  /\ fb_wit (bs "route add s h.com/ http://h/ weight 5e-324") = Panic
-  /\ match fb_wit overflow_text with
-     | Ok bt => lookup_full hostglob_wit bt (bs "h.com") false (bs "/") Lookup.MPrefix false 0%N = Panic
-                /\ lookup_full hostglob_wit bt (bs "h.com") false (bs "/") Lookup.MPrefix true 0%N = Panic
-     | _ => False
-     end
-  /\ match fb_wit (bs "route add s [/ http://h/" ++ nl ++ bs "route add t x.com/ http://x/") with
-     | Ok bt => lookup_full hostglob_wit bt (bs "x.com") false (bs "/") Lookup.MPrefix false 0%N = Panic
-                /\ lookup_full hostglob_wit bt (bs "x.com") false (bs "/") Lookup.MPrefix true 0%N
-                   = Ok (Some (bs "x.com", bs "/", 0))
-     | _ => False
-     end.
-Proof.
-  exact (conj weight_inf_crashes_build (conj weight_denormal_crashes_build
-        (conj weight_sum_overflow_crashes_lookup bad_host_glob_crashes_lookup))).
-Qed.
+Theorem C02_new_table_total_refuted : exists text, fb_wit text = Panic.
+Proof. exact (ex_intro (fun text => fb_wit text = Panic) _ weight_inf_crashes_build). Qed.
 Print Assumptions C02_new_table_total_refuted.
+
+Theorem C02_weight_inf_crashes_build :
+  fb_wit (bs "route add s h.com/ http://h/ weight Inf") = Panic.
+Proof. exact weight_inf_crashes_build. Qed.
+Print Assumptions C02_weight_inf_crashes_build.
+
+Theorem C02_weight_denormal_crashes_build :
+  fb_wit (bs "route add s h.com/ http://h/ weight 5e-324") = Panic.
+Proof. exact weight_denormal_crashes_build. Qed.
+Print Assumptions C02_weight_denormal_crashes_build.
+
+Theorem C02_weight_sum_overflow_crashes_lookup :
+  match fb_wit overflow_text with
+  | Ok bt => lookup_full hostglob_wit bt (bs "h.com") false (bs "/") Lookup.MPrefix false 0%N = Panic
+             /\ lookup_full hostglob_wit bt (bs "h.com") false (bs "/") Lookup.MPrefix true 0%N = Panic
+  | _ => False
+  end.
+Proof. exact weight_sum_overflow_crashes_lookup. Qed.
+Print Assumptions C02_weight_sum_overflow_crashes_lookup.
+
+Theorem C02_bad_host_glob_crashes_lookup :
+  match fb_wit (bs "route add s [/ http://h/" ++ nl ++ bs "route add t x.com/ http://x/") with
+  | Ok bt => lookup_full hostglob_wit bt (bs "x.com") false (bs "/") Lookup.MPrefix false 0%N = Panic
+             /\ lookup_full hostglob_wit bt (bs "x.com") false (bs "/") Lookup.MPrefix true 0%N
+                = Ok (Some (bs "x.com", bs "/", 0))
+  | _ => False
+  end.
+Proof. exact bad_host_glob_crashes_lookup. Qed.
+Print Assumptions C02_bad_host_glob_crashes_lookup.
 
 Theorem C02_watch_crash_refuted :
   map (fun p => match p with
